@@ -1,6 +1,7 @@
 """Bounded stand-in (NOT a proof): collect + push + fetch through storage mappings on generated indexes.
 Bound: <= 4 disjoint top-level prefixes, <= 3 remotes (prefixes may share a remote), <= 3 entries per prefix (files or
 directory objects with <= 3 files, depth <= 2); n layouts per run (seeded)."""
+import logging; logging.disable(logging.CRITICAL)
 import hashlib, json, os, random, sys, tempfile
 SRC = os.environ.get("PYVC_REPO_SRC", "/repo/src")
 sys.path.insert(0, SRC)
